@@ -848,6 +848,7 @@ static void reg_all ()
     reg_line_plane<float> ();
     reg_line_plane<double> ();
     reg_fun_fp<double> ();
+    reg_fun_fp<float> ();       // the float overloads are reachable only through FloatArray arguments: 1-element arrays
     reg_fun_int ();
 }
 
